@@ -152,6 +152,18 @@ def judge_constant(kind, alt):
         out.append(("constant_model_same_everywhere", vals[0], sorted(set(vals))[:3]))
     if exp is not None and not (np.float32(vals[0]) == exp or (math.isinf(alt) and vals[0] == alt)):
         out.append(("uniform_cloud_equals_configured_altitude", float(exp), vals[0]))
+    if kind != "none":
+        # the model belongs to the configuration AS IT WAS when the model was built (an altitude scan builds its models
+        # first and evaluates them afterwards): editing the live configuration object must not move an existing model
+        for other in (alt + 3.5, -1.0, 50.0):
+            try:
+                cfg.simulation.cloud_model.altitude = other
+            except Exception:
+                break
+            moved = float(c(0.3, 2.0))
+            if not (np.float32(moved) == np.float32(vals[0]) or (math.isnan(moved) and math.isnan(vals[0]))):
+                out.append(("model_keeps_the_altitude_it_was_built_with", vals[0], moved))
+                break
     if kind == "none":
         # "no cloud" must leave every shower cloud-free, also one that starts at the surface
         k = spy_kernel()
@@ -327,7 +339,7 @@ def judge_map_history(seq):
     return out
 
 
-CALLBACKS = ["omitted", "none", "below", "mid", "overcast"]
+CALLBACKS = ["omitted", "none", "below", "mid", "overcast", "raises"]  # ("raises": the batch fails part-way; what follows it must not notice)
 
 
 def _batch_call(obj, how, which):
@@ -337,13 +349,24 @@ def _batch_call(obj, how, which):
     E = np.array([1.0, 10.0, 0.1])
     la = np.array([0.1, 0.2, -0.3])
     lo = np.array([0.3, -1.0, 2.0])
-    cf = {"below": lambda x, y: np.float64(-1.0), "mid": lambda x, y: np.float64(6.0), "overcast": lambda x, y: np.float64(100.0)}
+    def refusing(x, y):
+        # an overcast sky whose lookup fails at the LAST event's site: the batch call raises part-way
+        if float(x) == -0.3:
+            raise ValueError("injected cloud-lookup failure")
+        return np.float64(100.0)
+
+    cf = {"below": lambda x, y: np.float64(-1.0), "mid": lambda x, y: np.float64(6.0), "overcast": lambda x, y: np.float64(100.0), "raises": refusing}
     with sim.owned(0, "synchronous"), own.quiet(), np.errstate(all="ignore"):
-        if which == "kernel":
-            r = obj(b, a, E, la, lo) if how == "omitted" else obj(b, a, E, la, lo, None if how == "none" else cf[how])
-        else:
-            args = (b, a, E, la, lo)
-            r = obj(*args) if how == "omitted" else obj(*args, cloudf=None if how == "none" else cf[how])
+        try:
+            if which == "kernel":
+                r = obj(b, a, E, la, lo) if how == "omitted" else obj(b, a, E, la, lo, None if how == "none" else cf[how])
+            else:
+                args = (b, a, E, la, lo)
+                r = obj(*args) if how == "omitted" else obj(*args, cloudf=None if how == "none" else cf[how])
+        except ValueError as ex:
+            if how == "raises" and "injected" in str(ex):
+                return (b"raised",)
+            raise
     return tuple(np.asarray(x, dtype=np.float64).tobytes() for x in r)
 
 
@@ -363,7 +386,7 @@ def judge_callback_history(which, seq):
     for k, i in enumerate(seq):
         got = _batch_call(o, CALLBACKS[i], which)
         if got != want[k]:
-            g, w = (np.frombuffer(x[0], dtype=np.float64)[:3].tolist() for x in (got, want[k]))
+            g, w = (("raised" if x[0] == b"raised" else np.frombuffer(x[0], dtype=np.float64)[:3].tolist()) for x in (got, want[k]))
             return [("callback_of_this_batch_only", f"batch {k} of {[CALLBACKS[j] for j in seq]} on one {which}: {w}", g)]
     return []
 
